@@ -403,6 +403,10 @@ pub fn evaluate(text: &str, level: u8, base_budget: i64, sweep_step: i64, acc: &
         ("default", ContextHolidays::default(), Some(Duration::days(1))),
         ("default", ContextHolidays::default(), Some(Duration::days(366))),
         ("default", ContextHolidays::default(), None),
+        // bounds at the limits of the type (the early-exit arithmetic adds a day to the bound)
+        ("default", ContextHolidays::default(), Some(Duration::MAX)),
+        ("default", ContextHolidays::default(), Some(Duration::zero())),
+        ("default", ContextHolidays::default(), Some(Duration::MIN)),
     ];
     if holiday {
         plans.push(("synthetic", syn_holidays.clone(), Some(Duration::days(366))));
@@ -418,7 +422,7 @@ pub fn evaluate(text: &str, level: u8, base_budget: i64, sweep_step: i64, acc: &
         }
         let name = format!("{cname}{}", b.map(|x| format!("+bound{}d", x.num_days())).unwrap_or_default());
         let inst: Vec<(String, NaiveDateTime)> = if cname == "extreme-calendar" { naive.iter().step_by(3).cloned().collect() } else { naive.clone() };
-        let mut c = Call { text, ctx: &name, acc, calls: 0, long: true, long_budget: &mut budget, bounded: b.is_some() };
+        let mut c = Call { text, ctx: &name, acc, calls: 0, long: true, long_budget: &mut budget, bounded: b.map(|x| x <= Duration::days(400)).unwrap_or(false) };
         battery(&oh.clone().with_context(ctx), &inst, &mut c);
         calls += c.calls;
     }
